@@ -38,7 +38,21 @@ ASSUMPTIONS = ['which static kind a composed view type gets is decided by C++ me
                'instances are restricted to positive extents and to arguments NumPy accepts (invalid arguments are C15)',
                'kind combinations the unchanged library cannot compile are excluded (harness/c11_uncompilable.txt)']
 PARTIAL = []
-MANIFEST = dict(text='', note='', technique='')   # filled at the end of the file
+MANIFEST = dict(
+    text=('Proof: the compile-time knowledge nmtools attaches to an array / view type is modelled as an abstract value (shape-type kind: '
+          'constant / clipped / fixed dim / bounded dim / dynamic; size: known / at most / unknown) with concretisation gamma; Lean theorems show that the '
+          'five traits are true of every instance (traits_sound), that the transfer function of each of 11 view functions (transpose, reshape, flatten, '
+          'broadcast_to, tile, expand_dims, squeeze, reductions, unary and binary ufuncs, concatenate) is sound for ALL shapes, ranks and arguments, that '
+          'soundness composes over arbitrary view expression trees (static_sound) and that a buffer of bounded_size elements holds every result '
+          '(result_buffer_fits). The transfer functions are tied to the real metafunctions by generated translation units: for every program (depth 1..3 over '
+          '10 leaf kinds) the printed fixed_shape/fixed_dim/fixed_size/bounded_dim/bounded_size and shape-type kind must equal the Lean prediction, and for every '
+          'run-time shape the type admits they must agree with the object and with NumPy, and eval must return the whole result.'),
+    note=('Lean kernel + propext/Classical.choice/Quot.sound. The C++ template level itself is not verified: the transfer functions are a hand-written mirror, '
+          'compared with the compiler-computed traits on every generated program; 13 further view functions (repeat, pad, cumsum, roll, flip, moveaxis, take, slice, '
+          'atleast_nd, scalar multiply, where, matmul) are checked against the run-time objects and NumPy only (no Lean transfer). Two unsound kind '
+          'combinations of the unchanged library are excluded from the theorems and listed as known findings with counterexample theorems; a third '
+          '(take over a clipped source) is outside the Lean model. Kind combinations that do not compile are excluded (harness/c11_uncompilable.txt).'),
+    technique='Lean 4 soundness proof of an abstract interpretation + differential correspondence on generated kind-matrix translation units')
 
 _cache = {}
 
@@ -183,7 +197,14 @@ def gen(tier, rng):
 
 
 def post(cases, tier):
-    return []
+    """guards of the machinery itself: a refusal (`nothing`) is no disagreement, but wholesale refusal would empty the check"""
+    out = []
+    ran = [c for c in cases if c.impl not in (None, 'no-harness')]
+    refused = [c for c in ran if c.impl == 'nothing']
+    if ran and len(refused) * 20 > len(ran):
+        out.append(('refusals', 'IMPL refused (Nothing) %d of %d instances NumPy accepts, e.g. %s: the static knowledge of those types is not exercised' % (
+            len(refused), len(ran), refused[0].req), {'cases': [c.req for c in refused[:20]], 'count': len(refused)}, False))
+    return out
 
 
 def coverage_extra(cases, tier):
@@ -195,7 +216,11 @@ def coverage_extra(cases, tier):
             if fields(c.impl).get('h') == fields(c.oracle).get('h'):
                 agree += 1
     progs, tus = _setup(tier)
-    return {'programs': len(progs), 'translation_units': len(tus), 'instances_refused_by_impl(nothing)': refused,
+    clamp = sum(1 for c in cases if c.impl and c.impl.startswith('ok ') and fields(c.impl).get('hk', '0').split('/')[1:2] not in ([], ['0']))
+    return {'programs_by_depth': {str(d): sum(1 for p in progs if p.depth == d) for d in (1, 2, 3)},
+            'programs_with_lean_transfer': sum(1 for p in progs if p.modelled()),
+            'instances_with_clamp_events(kind 2, informational)': clamp,
+            'programs': len(progs), 'translation_units': len(tus), 'instances_refused_by_impl(nothing)': refused,
             'view_data_equal_numpy': '%d/%d' % (agree, total), 'uncompilable_programs_excluded': len(G.load_skip())}
 
 
